@@ -11,6 +11,12 @@ G  every TLC-enumerated document, with the relations the model demands, is concr
    Universes S1/S2 (S3 thorough) carry STRUCTURED fillers enumerated by TLC itself: nested links /
    template calls / argument references / external links whose arguments span several lines and
    continue with text that means something at a line start; they are spelled piece by piece.
+   Universes QI / QFI (TI, TI5 thorough): the INDENTED LINE (a preformatted block -- the one balanced filler block that
+   is still open when the next line arrives) is a line type of the model; it stands directly before / after headings,
+   list lines and rules, with and without a section open (first heading of the document).  The relation `par` (the
+   parent NODE of every section / list / preformatted block) says that sections are nested in sections and in nothing
+   else.  Universe QO (TO): unbalanced openers ('' ''' <span> <div> {|) left open before the next line -- outside
+   the property, the machine's relations are the expectation, DRIFT only.
 V  seeded random longer documents (<= 10 headings, <= 12 list lines, depth <= 4, rules,
    paragraphs, blanks, fillers) are parsed by the real code, the extracted relations are
    recorded and validated by TLC against ParserRef (Trace_ParserRef).
@@ -108,11 +114,19 @@ def spell(doc, fill) -> str:
                 out.append(f + "\n" + w if before else w + "\n" + f)
             else:
                 out.append(w if not f else (f"{f} {w}" if before else f"{w} {f}"))
+        elif t == "I":
+            out.append(" " + (w if not f else (f"{f} {w}" if before else f"{w} {f}")))
+        elif t == "O":
+            out.append(OPENERS[ln["c"]] + w)
         elif t == "R":
             out.append("----")
         else:
             out.append("")
     return "\n".join(out) + "\n"
+
+
+# unbalanced openers of the universe O (ParserRefDoc!OpenToks): the construct is left open at the end of the line
+OPENERS = {"IT": "''", "BO": "'''", "SPAN": "<span>", "DIV": "<div>", "TBL": "{|\n|"}
 
 
 def spell_plain(doc) -> str:
@@ -124,7 +138,8 @@ def spell_plain(doc) -> str:
         out.append(
             "=" * ln["l"] + w + "=" * ln["l"] if t == "H"
             else "".join(ln["p"]) + " " + w if t == "L"
-            else w if t == "P" else "----" if t == "R" else ""
+            else w if t == "P" else " " + w if t == "I" else OPENERS[ln["c"]] + w if t == "O"
+            else "----" if t == "R" else ""
         )
     return "\n".join(out) + "\n"
 
@@ -171,6 +186,8 @@ def spell_s(sdoc) -> str:
             out.append("".join(ln["p"]) + " " + body)
         elif t == "P":
             out.append(body)
+        elif t == "I":
+            out.append(" " + body)
         elif t == "R":
             out.append("----")
         else:
@@ -240,7 +257,7 @@ def random_filler(rng, depth):
 
 
 def slots(doc):
-    return [i for i, ln in enumerate(doc) if ln["t"] in ("H", "L", "P")]
+    return [i for i, ln in enumerate(doc) if ln["t"] in ("H", "L", "P", "I")]
 
 
 def pick(rng, ln):
@@ -257,16 +274,36 @@ def pick(rng, ln):
 WORD_RE = re.compile(r"\bw(\d+)\b")
 LEVELS = {"LEVEL1", "LEVEL2", "LEVEL3", "LEVEL4", "LEVEL5", "LEVEL6"}
 NOOWN = {"k": "-", "w": "-", "m": []}
+WORDED = ("H", "L", "P", "I", "O")      # line types that carry a marker word (ParserRef!Worded)
+
+
+def rule_parents(root) -> list:
+    """Kinds of the parents of the HLINE nodes in document order (title arguments before the content)."""
+    from wikitextprocessor.parser import WikiNode
+    out = []
+
+    def walk(n):
+        for lst in [a for a in n.largs if isinstance(a, list)] + [n.children]:
+            for c in lst:
+                if isinstance(c, WikiNode):
+                    if c.kind.name == "HLINE":
+                        out.append(n.kind.name)
+                    else:
+                        walk(c)
+    walk(root)
+    return out
 
 
 def relations(root, doc) -> dict:
+    rp = rule_parents(root)
+    nrules = sum(1 for ln in doc if ln["t"] == "R")
     wp = pt.word_paths(root, re.compile(r"\bw\d+\b"))
     paths, counts = wp["paths"], wp["kind_counts"]
     n = len(doc)
     chain = {}
     for i in range(n):
         occ = paths.get(f"w{i + 1}", [])
-        if doc[i]["t"] in ("H", "L", "P") and len(occ) == 1:
+        if doc[i]["t"] in WORDED and len(occ) == 1:
             chain[i] = occ[0]
     own_id = {i: c[-1][0] for i, c in chain.items()}
     up_id = {i: (c[-2][0] if len(c) >= 2 else -1) for i, c in chain.items()}
@@ -281,18 +318,26 @@ def relations(root, doc) -> dict:
                 return e
         return None
 
-    own, sec, item, lst = [], [], [], []
+    def anc(c, k):
+        """kind of the k-th enclosing node above the one that holds the word"""
+        return c[-1 - k][1] if c is not None and len(c) > k else "NONE"
+
+    own, sec, item, lst, par = [], [], [], [], []
     for i in range(n):
         t = doc[i]["t"]
-        if t not in ("H", "L", "P"):
+        c = chain.get(i)
+        # the parent node of the structure the line creates: of the section node (H), of the list (L), of the
+        # preformatted block (I)
+        par.append(anc(c, 1) if t in ("H", "I") else anc(c, 2) if t == "L"
+                   else (rp[sum(1 for ln in doc[:i + 1] if ln["t"] == "R") - 1] if len(rp) == nrules else "NONE") if t == "R" else "-")
+        if t not in WORDED:
             own.append(dict(NOOWN)); sec.append(0); item.append(0); lst.append(0)
             continue
-        c = chain.get(i)
         if c is None:
             own.append({"k": "BAD", "w": "-", "m": []}); sec.append(0); item.append(0); lst.append(0)
             continue
         e = c[-1]
-        if t == "P":
+        if t in ("P", "O"):
             own.append(dict(NOOWN))
         else:
             m = list(e[2]) if e[1] in ("LIST", "LIST_ITEM") else ([e[2]] if e[2] else [])
@@ -306,7 +351,7 @@ def relations(root, doc) -> dict:
         else:
             item.append(0); lst.append(0)
     return {
-        "own": own, "sec": sec, "item": item, "lst": lst,
+        "own": own, "sec": sec, "item": item, "lst": lst, "par": par,
         "nsec": sum(counts.get(k, 0) for k in LEVELS),
         "nitem": counts.get("LIST_ITEM", 0),
         "nlist": counts.get("LIST", 0),
@@ -320,8 +365,63 @@ def strip_attrs(t):
             "children": [strip_attrs(c) for c in t["children"]]}
 
 
+def core(rel, doc):
+    """The projection of a relation record the property STATEMENT constrains.  Beyond the statement (DRIFT when only
+    that differs): that an indented line becomes a PREFORMATTED node (`own` of I lines) and where the list of a list
+    line / the block of an indented line / the node of a rule hangs (`par` of L, I and R lines; their containing section `sec` IS constrained:
+    all content up to the next heading is inside that section).  `par` of a heading line is constrained: the parent of
+    its section node is the node of its parent section (the root when there is none) and nothing else."""
+    r = dict(rel)
+    r["par"] = [p if ln["t"] == "H" else "-" for p, ln in zip(rel["par"], doc)]
+    r["own"] = [dict(NOOWN) if ln["t"] == "I" else o for o, ln in zip(rel["own"], doc)]
+    return r
+
+
+def line_text(ln, i):
+    w = f"w{i + 1}"
+    t = ln["t"]
+    return ("=" * ln["l"] + " " + w + " " + "=" * ln["l"] if t == "H" else "".join(ln["p"]) + " " + w if t == "L"
+            else " " + w if t == "I" else OPENERS[ln["c"]] + w if t == "O" else w if t == "P" else "----" if t == "R" else "")
+
+
+def par_why(doc, exp, got, text="") -> str:
+    """Names what a difference in `par` means: which line's node hangs below which kind of node."""
+    out = []
+    phys = text.split("\n")
+    for i, ln in enumerate(doc):
+        e, g = exp["par"][i], got["par"][i]
+        if e == g:
+            continue
+        before = "no section is open yet (first heading of the document)" if not any(x["t"] == "H" for x in doc[:i]) \
+            else "a section is open"
+        # the physical line in front of this one (it may belong to a filler block)
+        k = next((j for j, x in enumerate(phys) if re.search(rf"\bw{i + 1}\b", x)), None)
+        if k:
+            pl = phys[k - 1]
+            prevd = (f"the indented line {pl!r} (an open preformatted block)" if pl.startswith(" ") and pl.strip()
+                     else f"the list line {pl!r} (an open list item)" if pl[:1] in ("*", "#")
+                     else "a blank line" if not pl.strip() else f"the line {pl!r}")
+        else:
+            prev = doc[i - 1]["t"] if i else "-"
+            prevd = {"I": "an indented line (an open preformatted block)", "L": "a list line (an open list item)",
+                     "O": "a line that leaves a construct open", "P": "a paragraph line", "H": "a heading line",
+                     "R": "a rule", "B": "a blank line", "-": "nothing"}[prev]
+        what = {"H": f"the section node of heading line {i + 1} ({line_text(ln, i)!r})",
+                "L": f"the list of list line {i + 1} ({line_text(ln, i)!r})",
+                "I": f"the preformatted block of indented line {i + 1}",
+                "R": f"the rule node of rule line {i + 1}"}.get(ln["t"], f"line {i + 1}")
+        out.append(f"{what} is a child of a {g} node, the nesting model demands {e} "
+                   f"(the line directly follows {prevd}; {before}): a block that was still open when the line arrived "
+                   f"has not been closed and swallows the new node and everything after it")
+    return " -- " + "; ".join(out[:2]) if out else ""
+
+
+NEST_WHY = ("; TLC: the observed relations are exactly those of the model machine whose heading loop (subtitle_start_fn) pops "
+            "only while a SECTION is open (deviation TitleLoopNeedsSection: before the first heading nothing is closed)")
+
+
 def diff_class(exp, got):
-    for k in ("nsec", "nitem", "nlist", "own", "sec", "item", "lst"):
+    for k in ("nsec", "nitem", "nlist", "own", "sec", "item", "lst", "par"):
         if exp[k] != got[k]:
             return k
     return "?"
@@ -360,21 +460,42 @@ def judge(o: Outcome, case, name, text, rel, err, origin):
     o.evaluations += 1
     exp = case["rel"]
     if err is not None:
+        if case.get("ext"):
+            o.note_drift({"origin": origin, "text": text, "doc": case["doc"], "error": err,
+                          "note": "unbalanced opener: outside the property"})
+            return False
         o.violation({"origin": origin, "text": text, "doc": case["doc"], "error": err},
                     f"parse() raised {err} on a heading/list/rule document", cls="exception")
         return False
     if rel == exp:
         return True
-    cls = diff_class(exp, rel)
-    c = {"origin": origin, "variant": name, "text": text, "doc": case["doc"],
+    doc = case["doc"]
+    if case.get("ext"):
+        # a document with an unbalanced opener: the expectation is the machine's, not the statement's
+        o.note_drift({"origin": origin, "text": text, "doc": doc, "machine_relations": exp, "real_relations": rel,
+                      "differs_in": diff_class(exp, rel), "note": "unbalanced opener: outside the property"})
+        return False
+    cexp, crel = core(exp, doc), core(rel, doc)
+    if cexp == crel:
+        # only what the model says beyond the statement differs
+        cls = diff_class(exp, rel)
+        o.note_drift({"origin": origin, "text": text, "doc": doc, "differs_in": cls, "expected": exp[cls], "got": rel[cls],
+                      "note": "beyond the statement" + (par_why(doc, exp, rel, text) if cls == "par" else "")})
+        return False
+    cls = diff_class(cexp, crel)
+    c = {"origin": origin, "variant": name, "text": text, "doc": doc,
          "expected": exp, "got": rel, "differs_in": cls}
-    why = (f"parse({text!r}): relation '{cls}' extracted from the real tree is {rel[cls]!r}; "
-           f"the nesting model demands {exp[cls]!r}")
+    why = (f"parse({text!r}): relation '{cls}' extracted from the real tree is {crel[cls]!r}; "
+           f"the nesting model demands {cexp[cls]!r}")
+    if cls == "par":
+        why += par_why(doc, cexp, crel, text)
+    if case.get("nest"):
+        why += NEST_WHY
     if case.get("asis") is not None and rel == case["asis"]:
         o.classify(c, why, [DEV], cls="hline-level1")
     elif "sdoc" in case:
         c["sdoc"] = case["sdoc"]
-        o.violation(c, why + struct_why(case["sdoc"], case.get("flag")), cls=origin + ":struct:" + cls)
+        o.violation(c, why + ("" if case.get("nest") else struct_why(case["sdoc"], case.get("flag"))), cls=origin + ":struct:" + cls)
     else:
         o.violation(c, why, cls=origin + ":" + cls)
     return False
@@ -389,6 +510,8 @@ def struct_why(sdoc, flag) -> str:
             kinds, nl, depth = filler_shape(ln["s"])
             parts.append(f"line {i + 1} carries the balanced filler {render_piece(ln['s'])!r} (constructs {kinds}, nesting depth "
                          f"{depth}{', spans several lines' if nl else ''})")
+    if not parts:
+        return ""
     msg = " -- " + "; ".join(parts) + ": a filler is opaque, the line-start handling (list closing, list markers, leading " \
           "blanks) must stay switched off until its OUTERMOST construct is closed"
     if flag:
@@ -420,18 +543,31 @@ def variants_for(rng, doc, n_random, all_fillers):
     return v
 
 
-def diagnose_struct(o: Outcome, cases, results, cap=400):
-    """Structured cases whose real relations differ from the model's are handed to TLC (Trace_ParserRef) once more,
-    which says whether the model machine with BeglineFlagNotCounted produces exactly the observed relations."""
-    todo = [(idx, rel) for idx, name, text, rel, err, tree in results
-            if name == "struct" and rel is not None and rel != cases[idx]["rel"]]
-    todo = sorted(todo, key=lambda t: len(json.dumps(cases[t[0]]["sdoc"])))[:cap]      # the smallest ones are reported
+def diagnose(o: Outcome, cases, results, cap=400):
+    """Cases whose real relations differ from the model's are handed to TLC (Trace_ParserRef) once more, which says
+    whether a model machine with a deviation produces exactly the observed relations: BeglineFlagNotCounted (documents
+    with a structured filler) or TitleLoopNeedsSection (the heading loop needs an open section)."""
+    todo, seen = [], set()
+    for idx, name, text, rel, err, tree in results:
+        c = cases[idx]
+        if rel is None or rel == c["rel"] or c.get("ext") or (rel == c.get("asis")):
+            continue
+        if name == "struct":
+            todo.append((idx, c["sdoc"], rel))
+        elif (idx, common.json_key(rel)) not in seen:      # the variants of a document mostly agree
+            seen.add((idx, common.json_key(rel)))
+            todo.append((idx, c["doc"], rel))
+    todo = sorted(todo, key=lambda t: len(json.dumps(t[1])))[:cap]      # the smallest ones are reported
     if not todo:
         return
-    r, bad = validate_batch([{"doc": cases[idx]["sdoc"], "obs": rel} for idx, rel in todo])
+    r, bad = validate_batch([{"doc": doc, "obs": rel} for idx, doc, rel in todo])
     o.add_tlc("Trace_ParserRef(diagnosis)", r)
     for b in bad:
-        cases[todo[b["i"] - 1][0]]["flag"] = bool(b["flag"])
+        idx, doc, rel = todo[b["i"] - 1]
+        if "sdoc" in cases[idx]:
+            cases[idx]["flag"] = bool(b["flag"])
+        if b["nest"]:
+            cases[idx].setdefault("nest_rels", []).append(rel)
 
 
 def run_g(o: Outcome, cfgs, n_random, tier):
@@ -458,13 +594,16 @@ def run_g(o: Outcome, cfgs, n_random, tier):
                     k = "%s nl=%d depth=%d" % filler_shape(ln["s"])
                     shapes[k] = shapes.get(k, 0) + 1
         else:
-            work.append((idx, c["doc"], variants_for(rng, c["doc"], n_random, c["allf"]), not c["allf"]))
+            # (a document with an unbalanced opener is parsed as the machine's token sequence spells it: a filler
+            # would interact with the open construct)
+            work.append((idx, c["doc"], variants_for(rng, c["doc"], 0 if c.get("ext") else n_random, c["allf"]), not c["allf"]))
     results = pmap(run_chunk, work)
-    diagnose_struct(o, cases, results)
+    diagnose(o, cases, results)
     o.extra["structured_filler_shapes"] = dict(sorted(shapes.items()))
     drift_seen = 0
     for idx, name, text, rel, err, tree in results:
         c = cases[idx]
+        c["nest"] = rel is not None and rel in c.get("nest_rels", ())
         ok = judge(o, c, name, text, rel, err, "G")
         o.shape(("rel", common.json_key(c["rel"])))
         if tree is not None and ok:
@@ -478,7 +617,7 @@ def run_g(o: Outcome, cfgs, n_random, tier):
     # Parser.tla, so coverage is reported per line type)
     per_line = {}
     for c in cases:
-        for t in {ln["t"] + (str(ln["l"]) if ln["t"] == "H" else str(len(ln["p"])) if ln["t"] == "L" else "") for ln in c["doc"]}:
+        for t in {ln["t"] + (str(ln["l"]) if ln["t"] == "H" else str(len(ln["p"])) if ln["t"] == "L" else ln.get("c", "")) for ln in c["doc"]}:
             per_line[t] = per_line.get(t, 0) + 1
     o.extra["action_coverage"] = {"AddLine": len(cases), "documents_containing_line_type": per_line}
     mid = cases[len(cases) // 2]
@@ -494,8 +633,10 @@ def random_doc(rng):
     nh = rng.randint(0, 10)
     nl = rng.randint(0, 12)
     nother = rng.randint(0, 8)
-    kinds = ["H"] * nh + ["L"] * nl + [rng.choice("RPPB") for _ in range(nother)]
+    kinds = ["H"] * nh + ["L"] * nl + [rng.choice("RPPBII") for _ in range(nother)]
     rng.shuffle(kinds)
+    if rng.random() < 0.15:
+        kinds.insert(0, "I")        # an open preformatted block in front of whatever comes first
     # list lines tend to come in runs
     if rng.random() < 0.6:
         kinds.sort(key=lambda k: rng.random() + (0.0 if k != "L" else 0.0))
@@ -596,7 +737,7 @@ def run_v(o: Outcome, n):
             j = p[b["i"] - 1]
             idx = index[j]
             _, doc, text = items[idx]
-            case = {"doc": doc, "rel": b["expected"], "asis": batch[j]["obs"] if b["asis"] else None}
+            case = {"doc": doc, "rel": b["expected"], "asis": batch[j]["obs"] if b["asis"] else None, "nest": bool(b["nest"])}
             if any("s" in ln for ln in doc):
                 case["sdoc"], case["flag"] = doc, bool(b["flag"])
             judge_v(o, case, text, batch[j]["obs"])
@@ -607,15 +748,26 @@ def run_v(o: Outcome, n):
 
 
 def judge_v(o, case, text, rel):
-    exp = case["rel"]
-    cls = diff_class(exp, rel)
-    c = {"origin": "V", "text": text, "doc": case["doc"], "expected": exp, "got": rel, "differs_in": cls}
-    why = (f"parse({text!r}): relation '{cls}' extracted from the real tree is {rel[cls]!r}; "
-           f"the nesting model demands {exp[cls]!r}")
+    exp, doc = case["rel"], case["doc"]
+    pdoc = [{k: v for k, v in ln.items() if k not in ("s", "z")} for ln in doc]
+    cexp, crel = core(exp, pdoc), core(rel, pdoc)
+    if cexp == crel:
+        cls = diff_class(exp, rel)
+        o.note_drift({"origin": "V", "text": text, "doc": doc, "differs_in": cls, "expected": exp[cls], "got": rel[cls],
+                      "note": "beyond the statement" + (par_why(pdoc, exp, rel, text) if cls == "par" else "")})
+        return
+    cls = diff_class(cexp, crel)
+    c = {"origin": "V", "text": text, "doc": doc, "expected": exp, "got": rel, "differs_in": cls}
+    why = (f"parse({text!r}): relation '{cls}' extracted from the real tree is {crel[cls]!r}; "
+           f"the nesting model demands {cexp[cls]!r}")
+    if cls == "par":
+        why += par_why(pdoc, cexp, crel, text)
+    if case.get("nest"):
+        why += NEST_WHY
     if case["asis"] is not None:
         o.classify(c, why, [DEV], cls="hline-level1")
     elif "sdoc" in case:
-        o.violation(c, why + struct_why(case["sdoc"], case["flag"]), cls="V:struct:" + cls)
+        o.violation(c, why + ("" if case.get("nest") else struct_why(case["sdoc"], case["flag"])), cls="V:struct:" + cls)
     else:
         o.violation(c, why, cls="V:" + cls)
 
@@ -628,7 +780,11 @@ def run(tier: str) -> int:
     o.rule = ("G: every document (sequence of heading / list / rule / paragraph / blank lines) reachable in the "
               "universes of Gen_ParserRef is one case; each is parsed filler-free, with random filler assignments "
               "and (universe F) with every catalogue filler in every slot; V: seeded random long documents "
-              "validated by Trace_ParserRef. Universes S1/S2 (S3 thorough): documents with one STRUCTURED filler enumerated by "
+              "validated by Trace_ParserRef. Universes I / FI (thorough also I5, I with 5 lines): the indented line (an open "
+              "preformatted block) as a line type in every document of <= 4 lines over {H1..H3, indented, *, **, rule, paragraph, "
+              "blank} and with every catalogue filler (FI, <= 3 lines); relation par = kind of the parent node of every section "
+              "node / list / preformatted block. Universe O: unbalanced openers (italic, bold, span, div, table cell) left open in "
+              "documents of <= 3 (4) lines, expectation = the machine's relations, DRIFT only. Universes S1/S2 (S3 thorough): documents with one STRUCTURED filler enumerated by "
               "TLC (outer construct T/A/L x inner construct T/A/L/E, single- or multi-line, x every body of <= 2 (3) elements "
               "over {inner construct, word, newline, newline+list marker, newline+blank, argument separator}, depth 3 in S3; "
               "S1 = every filler in 10 document frames, S2 = 12 representative fillers in every document of <= 3 lines), "
@@ -637,6 +793,9 @@ def run(tier: str) -> int:
               "lst, counts) demanded / observed.")
     o.assumptions = [
         "marker words w<i> identify lines; fillers never contain such a word",
+        "statement-backed (VIOLATION): own/sec/item/lst/counts of heading, list and paragraph lines, sec of indented lines, par of "
+        "heading lines (a section node is a child of its parent section's node or of the root); beyond the statement (DRIFT): "
+        "own of indented lines, par of list, indented and rule lines, everything in documents with an unbalanced opener",
         "inline fillers stand after (or, where that does not change the construct, before) the marker word; "
         "block fillers only next to paragraph words",
         "relations are read off the real tree from parent chains of the marker words (harness/parsetree.word_paths)",
@@ -645,16 +804,22 @@ def run(tier: str) -> int:
     ]
     if thorough:
         cfgs = ["Gen_ParserRef_TH.cfg", "Gen_ParserRef_TL.cfg", "Gen_ParserRef_TM.cfg", "Gen_ParserRef_TM6.cfg", "Gen_ParserRef_QM.cfg",
-                "Gen_ParserRef_QF.cfg", "Gen_ParserRef_QS1.cfg", "Gen_ParserRef_QS2.cfg", "Gen_ParserRef_TS3.cfg"]
+                "Gen_ParserRef_QF.cfg", "Gen_ParserRef_QS1.cfg", "Gen_ParserRef_QS2.cfg", "Gen_ParserRef_TS3.cfg",
+                "Gen_ParserRef_QI.cfg", "Gen_ParserRef_TI.cfg", "Gen_ParserRef_TI5.cfg", "Gen_ParserRef_QFI.cfg", "Gen_ParserRef_TO.cfg"]
     else:
         cfgs = ["Gen_ParserRef_QH.cfg", "Gen_ParserRef_QL.cfg", "Gen_ParserRef_QM.cfg", "Gen_ParserRef_QF.cfg",
-                "Gen_ParserRef_QS1.cfg", "Gen_ParserRef_QS2.cfg"]
+                "Gen_ParserRef_QS1.cfg", "Gen_ParserRef_QS2.cfg",
+                "Gen_ParserRef_QI.cfg", "Gen_ParserRef_QFI.cfg", "Gen_ParserRef_QO.cfg"]
     # the Demo for the structured fillers (runs beside G): TLC itself finds a counterexample on a machine whose
     # begline switch does not count its nesting
-    with ThreadPoolExecutor(1) as ex:
+    with ThreadPoolExecutor(2) as ex:
         demo = ex.submit(tlc, "Gen_ParserRef", "Demo_ParserRef_begline.cfg", workers=1, check=False)
+        # the Demo for the open-block dimension: TLC itself finds a counterexample (an indented line directly before the
+        # first heading) on a machine whose heading loop pops only while a section is open
+        demo2 = ex.submit(tlc, "Gen_ParserRef", "Demo_ParserRef_firsthead.cfg", workers=1, check=False)
         run_g(o, cfgs, 2 if thorough else 1, tier)
         rb = demo.result()
+        rn = demo2.result()
     o.exhaustive = True
     # the Demo: TLC itself finds the rule/LEVEL1 counterexample on the as-is machine
     r = tlc("Gen_ParserRef", "Demo_ParserRef_hline.cfg", workers=1, check=False)
@@ -664,6 +829,9 @@ def run(tier: str) -> int:
     o.extra["demo_begline_flag_counterexample_found"] = "FlagOK" in rb.invariant_violated
     if "FlagOK" not in rb.invariant_violated:
         raise common.TLCError("Demo_ParserRef_begline did not produce the expected counterexample")
+    o.extra["demo_firsthead_counterexample_found"] = "NestOK" in rn.invariant_violated
+    if "NestOK" not in rn.invariant_violated:
+        raise common.TLCError("Demo_ParserRef_firsthead did not produce the expected counterexample")
     run_v(o, 60000 if thorough else 4000)
     return o.finish()
 
@@ -704,6 +872,17 @@ def selftest() -> int:
                     obs["item"][2] = 0          # pretend the nested item is not nested
                 _, bad = validate_batch([{"doc": dd, "obs": obs}])
                 bad_counts.append(len(bad))
+        # an indented line directly before the first heading: the recorded parent of the section node is changed from
+        # ROOT to PREFORMATTED -> rejected, and TLC recognises the machine whose heading loop needs an open section
+        idoc = [{"t": "I"}, {"t": "H", "l": 2}, {"t": "P"}]
+        root, err, _ = pt.parse(ctx, spell(idoc, {}))
+        rel = relations(root, idoc)
+        _, bad0 = validate_batch([{"doc": idoc, "obs": rel}])
+        obs = json.loads(json.dumps(rel))
+        obs["par"][1] = "PREFORMATTED"
+        _, bad1 = validate_batch([{"doc": idoc, "obs": obs}])
+        nest = [len(bad0), len(bad1), bool(bad1 and bad1[0]["nest"])]
         ctx.close_db_conn()
-    print("bad counts (intact, corrupted; plain, structured):", bad_counts)
-    return 0 if bad_counts == [0, 1, 0, 1] else 1
+    print("bad counts (intact, corrupted; plain, structured):", bad_counts, "; open block before the first heading "
+          "(intact, corrupted parent, recognised as TitleLoopNeedsSection):", nest)
+    return 0 if bad_counts == [0, 1, 0, 1] and nest == [0, 1, True] else 1
